@@ -154,7 +154,7 @@ impl Report {
         println!("VIOLATION property={} replay={}", self.property, path);
         println!("  kind: {}", kind);
         let d = body["detail"].to_string();
-        println!("  detail: {}", if d.len() > 600 { &d[..600] } else { &d });
+        println!("  detail: {}", d.chars().take(600).collect::<String>());
     }
     /// Writes evidence and returns the process exit code.
     pub fn finish(&self, coverage_main: Value) -> i32 {
